@@ -3,7 +3,7 @@ from __future__ import annotations
 
 import math
 
-from vtasks.vtypes import Color, Level, Mode, HarnessError, OtherError, Money, Point, Pair
+from vtasks.vtypes import Color, Level, Mode, HarnessError, OtherError, Money, Point, Pair, Order, Status
 
 STRINGS = ["", "a", "hello world", "üñí©ødé", "\U0001f600\U0001f680", "line\nbreak\ttab", 'quote"and\\backslash', "  ", "\x00\x01",
            "null", "true", "{}", "[1,2]", " ", "é" * 40, "0", "-1", "NaN"]
@@ -27,7 +27,7 @@ def gen_scalar(rng, domain):
             s = s + "".join(chr(rng.choice([rng.randrange(32, 127), rng.randrange(0xA0, 0x2FF), rng.randrange(0x4E00, 0x4E80), rng.randrange(0x1F600, 0x1F640)])) for _ in range(rng.randrange(0, 12)))
         return s
     if r < 0.9:
-        return rng.choice([Color.RED, Color.GREEN, Color.BLUE, Level.LOW, Level.HIGH, Mode.FAST, Mode.SLOW])
+        return rng.choice([Color.RED, Color.GREEN, Color.BLUE, Level.LOW, Level.HIGH, Mode.FAST, Mode.SLOW, Order.Status.NEW, Order.Status.DONE, Status.NEW, Order.Inner.Flag.ON])
     if domain == "pickle" and r < 0.95:
         return bytes(rng.randrange(256) for _ in range(rng.randrange(0, 9)))
     return Money(rng.choice([1, 2.5, 10 ** 12]), rng.choice(["EUR", "¥", ""]))
